@@ -5,6 +5,10 @@ comparison is decided and nothing else about them is known."""
 from absint import Agg, HRef, Ref, Sym, TOP, some, NONE, Event
 
 
+import os as _os
+_DEBUG = bool(_os.environ.get("MAHF_SA_DEBUG"))
+
+
 class Vec:
     """handle of a heap vector"""
 
@@ -103,6 +107,16 @@ def load(interp, env, v, depth=0):
     return v
 
 
+def load1(interp, env, v):
+    """one dereference step (`&T -> T`): an element reference yields the element, which may itself be a reference"""
+    if isinstance(v, Ref):
+        return interp.read_ref(env, v)
+    if isinstance(v, HRef):
+        items = heap_get(interp, v.vid)
+        return items[v.idx] if v.idx < len(items) else TOP
+    return v
+
+
 def veq(interp, env, a, b):
     a, b = load(interp, env, a), load(interp, env, b)
     if a is TOP or b is TOP:
@@ -160,6 +174,12 @@ def rank(interp, env, v):
 def _call1(interp, fv, args):
     """call a function value; single deterministic outcome or None"""
     outs = interp.call_value(fv, args)
+    if _DEBUG and outs:
+        for o in outs:
+            print("    [closure %s] -> %s %s" % (getattr(fv, "name", fv), o[2], o[0]))
+            for e in o[1]:
+                if e.kind == "call" and e.data[3] is TOP:
+                    print("        TOP %s %s" % (e.data[0], e.data[2]))
     if not outs:
         return None
     rets = [o for o in outs if o[2] == "return"]
@@ -368,6 +388,12 @@ def coll_oracle(interp, env, f, args, t, bb, path):
             if nm == "swap_with_slice":
                 view_set(interp, src, items)
             return unit
+        if nm in ("split_last", "split_first", "split_last_mut", "split_first_mut") and len(args) == 1:
+            if not items:
+                return NONE
+            if nm.startswith("split_last"):
+                return some(Agg("tuple", None, None, [HRef(v0.vid, off + len(items) - 1), Vec(v0.vid, True, off, off + len(items) - 1)]))
+            return some(Agg("tuple", None, None, [HRef(v0.vid, off), Vec(v0.vid, True, off + 1, off + len(items))]))
         if nm in ("split_at", "split_at_mut") and len(args) == 2 and isinstance(args[1], int) and not isinstance(args[1], bool):
             m_ = args[1]
             if m_ > len(items):
@@ -404,7 +430,8 @@ def coll_oracle(interp, env, f, args, t, bb, path):
             its = iter_items(interp, env, args[1])
             if its is None:
                 return TOP
-            view_set(interp, v0, items + [load(interp, env, x) for x in its])
+            by_copy = "Extend<&" in k          # `impl Extend<&'a T> for Vec<T>` copies out of the references
+            view_set(interp, v0, items + [load1(interp, env, x) if by_copy else (x if isinstance(x, HRef) else load(interp, env, x)) for x in its])
             if nm == "append":
                 src = load(interp, env, args[1])
                 if isinstance(src, Vec):
@@ -528,7 +555,7 @@ def coll_oracle(interp, env, f, args, t, bb, path):
             return some(lo)
         if nm in ("len", "count"):
             return max(0, hi - lo)
-        if nm in ("map", "filter", "collect", "rev", "skip", "take", "zip", "enumerate", "for_each", "all", "any", "cloned", "step_by", "chain", "sum", "min", "max") and hi - lo <= 64:
+        if nm in ("map", "filter", "collect", "rev", "skip", "take", "zip", "enumerate", "for_each", "all", "any", "cloned", "step_by", "chain", "sum", "min", "max", "flat_map", "filter_map", "fold", "position", "find", "count", "last") and hi - lo <= 64:
             v0 = It(list(range(lo, hi)))
     if dk in ("core::iter::sources::repeat::repeat", "core::iter::repeat"):
         return Agg("repeat", None, None, [args[0]])
@@ -550,6 +577,19 @@ def coll_oracle(interp, env, f, args, t, bb, path):
         return TOP
     if dk in ("alloc::vec::from_elem", "alloc::vec::spec_from_elem::SpecFromElem::from_elem") and len(args) >= 2 and isinstance(args[1], int):
         return new_vec(interp, [args[0]] * args[1])
+    if nm in ("box_assume_init_into_vec_unsafe", "into_vec") and args:
+        a = load(interp, env, args[0])
+        if isinstance(a, Agg) and a.kind in ("array", "tuple"):
+            return new_vec(interp, a.fields)
+        # vec![a, b] = Box::new_uninit(); write the array through the raw pointer; box_assume_init_into_vec_unsafe(box)
+        for ev in reversed(path.events):
+            if ev.kind == "store" and ev.bb == bb - 0 and isinstance(ev.data[1], Agg) and ev.data[1].kind == "array":
+                return new_vec(interp, ev.data[1].fields)
+            if ev.kind == "store" and isinstance(ev.data[1], Agg) and ev.data[1].kind == "array":
+                return new_vec(interp, ev.data[1].fields)
+            if ev.kind in ("call", "inlined"):
+                break
+        return TOP
     if dk in ("core::mem::swap",) and len(args) == 2 and all(isinstance(x, (Ref, HRef)) for x in args):
         a_, b_ = load(interp, env, args[0]), load(interp, env, args[1])
         if store_ref(interp, env, args[0], b_) and store_ref(interp, env, args[1], a_):
@@ -587,7 +627,7 @@ def coll_oracle(interp, env, f, args, t, bb, path):
         if nm == "next":
             return some(it.items[0]) if it.items else NONE
         if nm in ("cloned", "copied"):
-            return It([load(interp, env, x) for x in it.items])
+            return It([load1(interp, env, x) for x in it.items])
         if nm in ("circular_tuple_windows", "tuple_windows"):
             import re as _re
             m_ = _re.search(r"TupleWindows<.*, \((.*)\)>$", f.get("ret") or "")
@@ -624,6 +664,26 @@ def coll_oracle(interp, env, f, args, t, bb, path):
                 if r is None:
                     return TOP
                 out.append(r)
+            return It(out)
+        if nm in ("flat_map", "flatten"):
+            out = []
+            for x in it.items:
+                r = _call1(interp, args[1], [x]) if nm == "flat_map" else x
+                if r is None:
+                    return TOP
+                sub = iter_items(interp, env, r)
+                if sub is None:
+                    return TOP
+                out.extend(sub)
+            return It(out)
+        if nm == "filter_map" and len(args) == 2:
+            out = []
+            for x in it.items:
+                r = _call1(interp, args[1], [x])
+                if isinstance(r, Agg) and r.variant == "Some":
+                    out.append(r.fields[0])
+                elif not (isinstance(r, Agg) and r.variant == "None"):
+                    return TOP
             return It(out)
         if nm == "filter" and len(args) == 2:
             out = []
